@@ -52,6 +52,21 @@ func main() {
 			p, _ := props.Get(id)
 			fmt.Printf("%s  %s\n", id, p.Title)
 		}
+	case "funcs":
+		// the inventory of function names the obligation tables were written against (engine/known_funcs.txt)
+		p, err := engine.Load(engine.LoadOpts{Dir: repoDir(), AllDeps: false})
+		if err != nil {
+			fmt.Fprintln(os.Stderr, err)
+			os.Exit(2)
+		}
+		var names []string
+		for _, f := range p.Funcs {
+			names = append(names, f.Name())
+		}
+		sort.Strings(names)
+		for _, n := range names {
+			fmt.Println(n)
+		}
 	case "scan":
 		os.Exit(cmdScan(os.Args[2:]))
 	case "witness":
